@@ -224,13 +224,12 @@ class SSHChannel(log.Logger):
             self.buf += data
             return
         top = len(data)
-        if top > self.remoteWindowLeft:
+        stalled = top > self.remoteWindowLeft
+        if stalled:
             data, self.buf = (
                 data[: self.remoteWindowLeft],
                 data[self.remoteWindowLeft :],
             )
-            self.areWriting = 0
-            self.stopWriting()
             top = self.remoteWindowLeft
         rmp = self.remoteMaxPacket
         write = self.conn.sendData
@@ -238,6 +237,11 @@ class SSHChannel(log.Logger):
         for offset in r:
             write(self, data[offset : offset + rmp])
         self.remoteWindowLeft -= top
+        if stalled:
+            # Only now: stopWriting() may write, and has to see the window
+            # already charged for what was just sent.
+            self.areWriting = 0
+            self.stopWriting()
         if self.closing and not self.buf:
             self.loseConnection()  # try again
 
@@ -256,13 +260,12 @@ class SSHChannel(log.Logger):
             else:
                 self.extBuf.append([dataType, data])
             return
-        if len(data) > self.remoteWindowLeft:
+        stalled = len(data) > self.remoteWindowLeft
+        if stalled:
             data, self.extBuf = (
                 data[: self.remoteWindowLeft],
                 [[dataType, data[self.remoteWindowLeft :]]],
             )
-            self.areWriting = 0
-            self.stopWriting()
         while len(data) > self.remoteMaxPacket:
             self.conn.sendExtendedData(self, dataType, data[: self.remoteMaxPacket])
             data = data[self.remoteMaxPacket :]
@@ -270,6 +273,11 @@ class SSHChannel(log.Logger):
         if data:
             self.conn.sendExtendedData(self, dataType, data)
             self.remoteWindowLeft -= len(data)
+        if stalled:
+            # Only now: stopWriting() may write, and has to see the window
+            # already charged for what was just sent.
+            self.areWriting = 0
+            self.stopWriting()
         if self.closing:
             self.loseConnection()  # try again
 
